@@ -388,6 +388,10 @@ func init() {
 				lo, _ := strconv.Atoi(f[1])
 				hi, _ := strconv.Atoi(f[2])
 				return c18Sweep(lo, hi)
+			case len(f) == 5 && f[0] == "B2":
+				o1, _ := strconv.Atoi(f[2])
+				o2, _ := strconv.Atoi(f[3])
+				return c18BreakMulti(unhx(f[1]), []int{o1, o2}, f[4])
 			case len(f) == 3 && f[0] == "B":
 				off, _ := strconv.Atoi(f[2])
 				return c18Break(unhx(f[1]), off)
